@@ -909,7 +909,8 @@ func ruleQueuedArgsNotShared(w *core.World, r *core.Report) {
 						}
 						visited[x] = true
 						if ph, isPhi := x.(*ssa.Phi); isPhi && ph.Parent() == g {
-							if _, isSl := ph.Type().Underlying().(*types.Slice); isSl && core.LoopHeadOf(ph.Block()) == ph.Block() && (ph.Block() == head || ph.Block().Dominates(c.Block())) {
+							// a carried slice of the argument type (a list of commands the loop walks over is not a buffer)
+							if types.Identical(ph.Type(), last.Type()) && core.LoopHeadOf(ph.Block()) == ph.Block() && (ph.Block() == head || ph.Block().Dominates(c.Block())) {
 								carried = ph
 							}
 						}
